@@ -80,9 +80,9 @@ CONFIGS = {
         # three profiles
         ('M3', dict(fn='MCFn2', K=1, depth=3, minv=1, maxv=1, P=3, S=1, T=3, mod=1, workers=3)),
         # the depth dimension: stacks up to two levels beyond the clamp level, stretching commutes with build/merge/layout
-        ('D4', dict(fn='MCFn2', K=1, depth=4, cap=2, plans='MCPlans5', minv=1, maxv=1, P=1, S=2, T=2, mod=1, workers=3, deep=2)),
+        ('D4', dict(fn='MCFn2', K=1, depth=4, cap=2, plans='MCPlans5', minv=1, maxv=1, P=1, S=2, T=2, mod=1, workers=3, deep=4)),
         # two sample types, two profiles, all three stretch plans
-        ('H3', dict(fn='MCFn2', K=2, depth=3, cap=2, plans='MCPlans3', minv=1, maxv=1, P=2, S=1, T=2, mod=1, workers=2, deep=1)),
+        ('H3', dict(fn='MCFn2', K=2, depth=3, cap=2, plans='MCPlans3', minv=1, maxv=1, P=2, S=1, T=2, mod=1, workers=2, deep=2)),
     ],
     'thorough': [
         ('S3', dict(fn='MCFn2', K=1, depth=3, minv=0, maxv=2, P=1, S=3, T=3, mod=2, workers=8)),
@@ -114,7 +114,7 @@ CLASSES_REQUIRED = ['empty_stack_sample', 'recursive_stack', 'sample_with_linele
                     'real_stack_one_beyond_level_clamp', 'real_stack_beyond_level_clamp', 'real_stack_of_thousands_of_frames',
                     'level_stretched_by_recursion', 'level_stretched_by_distinct_functions',
                     'level_stretched_by_mutual_recursion']
-DEEPMOD = {'quick': 48, 'thorough': 32}
+DEEPMOD = {'quick': 96, 'thorough': 32}
 DEFAULTS = dict(cap=2, plans='MCNoPlans', deep=0)
 
 _CASE = re.compile(r'^<<"C16CASE", (".*")>>$')
